@@ -83,12 +83,19 @@ def cases(tier, seed):
             for a0 in ANGLE0[:2]:
                 for axis in (0, 1, 2):
                     out.append({"law": law, "compliance": form, "sub": "revolute", "pair": pair, "angle0": a0, "axis": axis, "reg": "law_after_reinit", "vel": "rest", "seed": seed})
+    # an EXPLICIT reference of exactly zero is a value, not "no value": it must be honoured (seeded C16-q, C23-q)
+    for law, form in LAWS:
+        if law == "Maxwell":
+            continue
+        for pair in ("O-PM", "RB-RB"):
+            out.append({"law": law, "compliance": form, "sub": "tpi", "pair": pair, "dist": DISTS[1], "reg": "sub_before_law", "vel": "rest", "seed": seed, "explicit_zero": True})
+        out.append({"law": law, "compliance": form, "sub": "revolute", "pair": "O-RB", "angle0": 0.3, "axis": 1, "reg": "sub_before_law", "vel": "rest", "seed": seed, "explicit_zero": True})
     order = REGS + ["law_after_reinit", "second_law_after_reinit"]
     out.sort(key=lambda c: (c["vel"] != "rest", order.index(c["reg"]), c["sub"] != "tpi"))
     return out
 
 
-def _build(case, explicit):
+def _build(case, explicit, l_ref_value=None):
     """returns (system, law, sub, l_expected, movable) ; raises whatever cardillo raises"""
     from cardillo import System
     from cardillo.force_laws import KelvinVoigtElement, MaxwellElement, Spring
@@ -178,7 +185,7 @@ def _build(case, explicit):
         u0[:3] = f.r_t(J.T0) + f.A_t(J.T0) @ off1
         s2.u0 = u0
 
-    l_ref = l_expected if explicit else None
+    l_ref = (l_expected if l_ref_value is None else l_ref_value) if explicit else None
     if case["law"] == "Spring":
         law = Spring(sub, 11.0, l_ref=l_ref, compliance_form=case["compliance"])
     elif case["law"] == "KelvinVoigt":
@@ -238,7 +245,29 @@ def _exc_info(e):
     return {"exc": type(e).__name__, "exc_msg": str(e)[:200], "where": f"{last.filename.split('/cardillo/')[-1]}:{last.name}" if last else "?"}
 
 
+def check_explicit_zero(case):
+    """l_ref = 0.0 given explicitly: the law keeps it and is loaded by the full initial length / angle"""
+    c = dict(case)
+    system, law, sub, l_expected, _ = _build(c, explicit=True, l_ref_value=0.0)
+    fails = []
+    lr = float(np.asarray(law.l_ref).reshape(-1)[0]) if law.l_ref is not None else float("nan")
+    if not lr == 0.0:
+        fails.append({"site": "explicit l_ref = 0 is not kept", "msg": f"l_ref = {law.l_ref!r} after assembly (initial length/angle {l_expected})", "data": {"l_ref": lr, "l0": l_expected}})
+    t0 = system.t0
+    q0, u0 = J.raw_q0(system)
+    if case["compliance"]:
+        f = float(np.asarray(system.la_c(t0, q0, u0), float)[law.la_cDOF].reshape(-1)[0])
+    else:
+        f = float(np.asarray(law.la_c(t0, q0[law.qDOF], u0[law.uDOF])).reshape(-1)[0])
+    want = -11.0 * l_expected
+    if not abs(f - want) <= 1e-10 * max(1.0, abs(want)):
+        fails.append({"site": "force of a law with explicit l_ref = 0 vs -k l(t0,q0)", "msg": f"force {f!r}, expected {want!r}", "data": {"force": f, "want": want}})
+    return {"fails": fails, "nontrivial": True, "evals": 2, "outcome": "explicit-zero:" + ("ok" if not fails else "fail")}
+
+
 def check(case):
+    if case.get("explicit_zero"):
+        return check_explicit_zero(case)
     fails = []
     evals = 0
     # the explicit twin decides whether this registration is usable at all
